@@ -503,6 +503,33 @@ def _check_codes(prog: Program, res: Result):
         if not ok:
             res.violation("R04.3", f"parity|even={even}|odd={odd}", prog.loc(fi, final), q, f"an even number of crossings returns {even} and an odd number {odd}; expected -1 (outside) and 1 (inside)")
         return
+    # signed crossing count (winding number):  W = 0 ; W += +1 / -1 by the direction of the crossing ; inside iff W != 0
+    wname = None
+    if isinstance(ft, ast.Compare) and len(ft.ops) == 1:
+        l_, r_ = ft.left, ft.comparators[0]
+        if isinstance(l_, ast.Name) and isinstance(r_, ast.Constant) and r_.value == 0:
+            wname = l_.id
+        elif isinstance(r_, ast.Name) and isinstance(l_, ast.Constant) and l_.value == 0:  # the load-time normalisation writes  w > 0  as  0 < w
+            wname = r_.id
+    if wname is not None:
+        incs = [s_ for s_ in ast.walk(fi.node) if isinstance(s_, ast.AugAssign) and isinstance(s_.target, ast.Name) and s_.target.id == wname]
+        signed = any(isinstance(s_.op, ast.Sub) or isinstance(s_.value, ast.IfExp) or (isinstance(s_.value, ast.UnaryOp) and isinstance(s_.value.op, ast.USub)) for s_ in incs)
+        init0 = any(isinstance(s_, ast.Assign) and len(s_.targets) == 1 and isinstance(s_.targets[0], ast.Name) and s_.targets[0].id == wname and isinstance(s_.value, ast.Constant) and s_.value.value == 0 for s_ in ast.walk(fi.node))
+        if incs and signed and init0:
+            a, b = ast.literal_eval(final.value.body), ast.literal_eval(final.value.orelse)
+            op = ft.ops[0]
+            if isinstance(op, (ast.NotEq, ast.Eq)):
+                nonzero, zero = (a, b) if isinstance(op, ast.NotEq) else (b, a)
+                ok = nonzero == 1 and zero == -1
+                res.ob("R04.3", f"winding number: non-zero -> 1 (inside), zero -> -1 (outside) (got non-zero={nonzero}, zero={zero})", ok, prog.loc(fi, final))
+                if not ok:
+                    res.violation("R04.3", f"winding|nonzero={nonzero}|zero={zero}", prog.loc(fi, final), q, f"a non-zero winding number returns {nonzero} and zero returns {zero}; expected 1 (inside) and -1 (outside)")
+            else:
+                res.ob("R04.3", "the final code does not depend on the ORIENTATION of the outline", False, prog.loc(fi, final))
+                res.violation("R04.3", f"winding|one-sided|{ast.unparse(ft)}", prog.loc(fi, final), q,
+                              f"'{norm_stmt(final)}' reports inside only for one sign of the signed crossing count: an outline given in the other orientation (clockwise / counter-clockwise) has no interior, "
+                              "so a no-go zone drawn that way removes nothing and a property drawn that way keeps nothing")
+            return
     var = final.value.test.id if isinstance(final.value.test, ast.Name) else None
     init = None
     toggles = 0
@@ -585,14 +612,58 @@ def _check_order(prog: Program, res: Result):
         res.violation("R04.4", f"sort-key|{ast.unparse(key) if key is not None else None}", prog.loc(rfi, srt[0]), rq, f"reorder_domain sorts by {ast.unparse(key) if key is not None else 'the tuples themselves'} instead of the number of boreholes of each field")
     if not okz:
         res.violation("R04.4", "sort-pairs", prog.loc(rfi, srt[0]), rq, "reorder_domain does not sort (field, descriptor) pairs together")
-    r = [x for x in ast.walk(rfi.node) if isinstance(x, ast.Return)]
-    okr = r and isinstance(r[0].value, ast.Call) and attr_chain(r[0].value.func) == "zip" and r[0].value.args and isinstance(r[0].value.args[0], ast.Starred)
-    res.ob("R04.4", "reorder_domain returns the sorted pairs unzipped (fields, descriptors)", bool(okr), prog.loc(rfi, rfi.node))
+    rets = [x for x in ast.walk(rfi.node) if isinstance(x, ast.Return)]
+    sorted_rets = [x for x in rets if isinstance(x.value, ast.Call) and attr_chain(x.value.func) == "zip" and x.value.args and isinstance(x.value.args[0], ast.Starred)
+                   and any(c is srt[0] for c in ast.walk(x.value))]
+    okr = bool(sorted_rets)
+    res.ob("R04.4", "reorder_domain returns the sorted pairs unzipped (fields, descriptors)", okr, prog.loc(rfi, rfi.node))
     if not okr:
         res.violation("R04.4", "unzip", prog.loc(rfi, rfi.node), rq, "reorder_domain does not return zip(*sorted(...))")
+    # any other way out hands the lists back as they came: allowed only under a test that establishes the order of EVERY adjacent pair
+    sizes_of = {}
+    for s_ in ast.walk(rfi.node):
+        if isinstance(s_, ast.Assign) and len(s_.targets) == 1 and isinstance(s_.targets[0], ast.Name) and isinstance(s_.value, ast.ListComp) and len(s_.value.generators) == 1 \
+                and isinstance(s_.value.elt, ast.Call) and attr_chain(s_.value.elt.func) == "len" and ast.unparse(s_.value.generators[0].iter) == rfi.params()[0] and not s_.value.generators[0].ifs:
+            sizes_of[s_.targets[0].id] = True
+
+    def complete_order_test(t) -> bool:
+        if not (isinstance(t, ast.Call) and attr_chain(t.func) == "all" and len(t.args) == 1 and isinstance(t.args[0], (ast.GeneratorExp, ast.ListComp)) and len(t.args[0].generators) == 1):
+            return False
+        g = t.args[0].generators[0]
+        e = t.args[0].elt
+        if g.ifs or not isinstance(g.target, ast.Name) or not (isinstance(e, ast.Compare) and len(e.ops) == 1 and isinstance(e.ops[0], (ast.LtE, ast.Lt))):
+            return False
+        i = g.target.id
+        it = ast.unparse(g.iter).replace(" ", "")
+        lhs, rhs = ast.unparse(e.left).replace(" ", ""), ast.unparse(e.comparators[0]).replace(" ", "")
+        for S in sizes_of:
+            if it == f"range(len({S})-1)" and lhs == f"{S}[{i}]" and rhs == f"{S}[{i}+1]":
+                return True
+            if it == f"range(1,len({S}))" and lhs == f"{S}[{i}-1]" and rhs == f"{S}[{i}]":
+                return True
+        return False
+
+    for x in rets:
+        if x in sorted_rets:
+            continue
+        guard = next((n for n in ast.walk(rfi.node) if isinstance(n, ast.If) and any(x is y for b_ in n.body for y in ast.walk(b_))), None)
+        okg = guard is not None and complete_order_test(guard.test)
+        res.ob("R04.4", f"'{norm_stmt(x)[:50]}' leaves the lists as they came only after testing every adjacent pair of sizes", okg, prog.loc(rfi, x))
+        if not okg:
+            res.violation("R04.4", f"unsorted-return|{norm_stmt(guard.test)[:60] if guard is not None else 'unguarded'}", prog.loc(rfi, x), rq,
+                          f"reorder_domain returns the lists unsorted{' when ' + norm_stmt(guard.test)[:90] if guard is not None else ''}: that does not establish sizes[i] <= sizes[i + 1] for every adjacent pair, "
+                          "so a list that is out of order (a cut-out can shrink a denser field below a sparser one) is handed to the bisection as it is")
 
 
 VARIANTS = [
+    Variant("ray cast rewritten as a winding number that counts only one orientation as inside (seeded C04_g)", "break",
+            [(SHM, "    inside = True\n    px = point[0]", "    winding = 0\n    px = point[0]"), (SHM, "                inside = not inside\n\n    return -1 if inside else 1", "                winding += 1 if v1y < v2y else -1\n\n    return 1 if winding > 0 else -1")], "R04.3"),
+    Variant("ray cast rewritten as a winding number, inside iff non-zero", "benign",
+            [(SHM, "    inside = True\n    px = point[0]", "    winding = 0\n    px = point[0]"), (SHM, "                inside = not inside\n\n    return -1 if inside else 1", "                winding += 1 if v1y < v2y else -1\n\n    return 1 if winding != 0 else -1")]),
+    Variant("reorder_domain skips the sort when all but the last pair are in order (seeded C04_h)", "break",
+            [(DOM, "    return zip(*sorted(zip(domain, descriptors), key=lambda x: len(x[0])))", "    sizes = [len(field) for field in domain]\n    if all(sizes[i] <= sizes[i + 1] for i in range(len(sizes) - 2)):\n        return tuple(domain), tuple(descriptors[: len(domain)])\n\n    return zip(*sorted(zip(domain, descriptors), key=lambda x: len(x[0])))")], "R04.4"),
+    Variant("reorder_domain skips the sort when every adjacent pair is in order", "benign",
+            [(DOM, "    return zip(*sorted(zip(domain, descriptors), key=lambda x: len(x[0])))", "    sizes = [len(field) for field in domain]\n    if all(sizes[i] <= sizes[i + 1] for i in range(len(sizes) - 1)):\n        return tuple(domain), tuple(descriptors[: len(domain)])\n\n    return zip(*sorted(zip(domain, descriptors), key=lambda x: len(x[0])))")]),
     Variant("outlines with three corners or fewer are skipped (seeded C04_f)", "break",
             [(FR, "        boundaries = [boundaries]\n", "        boundaries = [boundaries]\n    boundaries = [boundary for boundary in boundaries if len(boundary) > 3]\n")], "R04.1"),
     Variant("outlines copied into a list before the loop", "benign",
